@@ -190,8 +190,15 @@ def run_scenario(run: Run, scen: dict, rng: random.Random):
             for u, v in g.items():
                 if v.shape != base[u].shape or np.max(np.abs(v - base[u])) > 1e-9 * max(1.0, scale[u]):
                     j = int(np.argmax(np.abs(v - base[u])))
-                    run.violation("flag-dependent-gradient", dict(scen, X=X),
-                                  f"parameter of {v.size} entries: entry {j} has gradient {v[j]} under fold={fl[0]},optimize={fl[1]} and {base[u][j]} unfolded ({semiring})")
+                    at_zero = False
+                    if semiring != "sum-product" and exact and mc.mode == "rat":
+                        zr = zero_unit_rows(sc, theta0, X)
+                        at_zero = bool(zr & {b for b in range(len(X)) if cvals[0][b].any()})
+                    run.violation("gradient-through-exact-zero" if at_zero else "flag-dependent-gradient", dict(scen, X=X),
+                                  f"parameter of {v.size} entries: entry {j} has gradient {v[j]} under fold={fl[0]},optimize={fl[1]} and {base[u][j]} unfolded ({semiring}"
+                                  f"{'; some unit is exactly 0 at a row of the batch, where log-space gradients drop contributions' if at_zero else ''})")
+                    if at_zero:
+                        continue
                     return
                 run.tolerance += 1
             if gxs[fl] is not None and gxs[(False, False)] is not None:
